@@ -34,6 +34,10 @@
 (* The font data fd and the palette pal of a case are not copied into the  *)
 (* monitor state: Mon takes the init event of the current case as `big`.   *)
 (*                                                                         *)
+(* Only cells are governed by the statement: visible elements that belong   *)
+(* to no cell (margin right of the last whole cell column, pixel rows below  *)
+(* the last whole text line) may change or not in any operation (Free).      *)
+(* Logo rows, row padding and guard elements must never change.              *)
 (* Pixel values: a colour index is packed with the colour masks ci =       *)
 (* <<rpos, rsize, gpos, gsize, bpos, bsize>>.  Only bits covered by a mask *)
 (* are constrained (bit 15 of a 15-bpp pixel and the X byte of an XRGB      *)
